@@ -309,7 +309,7 @@ def _c10_extra(recs):
 
 _C19_DAEMON = dict(
         modules=["Mdns.Props.C19Daemon"],
-        model_files="Mdns/Model/Sched.lean",
+        model_files="Mdns/Model/Sched.lean, Mdns/Model/Client.lean",
         nontrivial=_sim_nontrivial,
         extra_evidence=_sim_extra,
         rule="histories on real daemon threads under the simulation seams (virtual clock, simulated interfaces, captured "
@@ -322,14 +322,22 @@ _C19_DAEMON = dict(
                    "timer) predicts every query (per interface and family), every search event and every requested wake-up "
                    "of these histories exactly; on it `one_schedule` (at most one queued retransmission per type/host in "
                    "every reachable state, any history) and the back-off step contracts are Lean theorems. The monitor checks "
-                   "the back-off gaps 1,2,4,..,3600 s on the real packets.",
+                   "the back-off gaps 1,2,4,..,3600 s on the real packets. On the CLIENT model (Client.iter, compared with the real "
+                   "daemon per iteration; Props/C19.lean section ClientModel; whole histories from the fresh daemon, any times / "
+                   "packets / commands): one_schedule_client (at most one queued retransmission per browsed type and per "
+                   "lower-cased host name), carried_delay_in_range (1 <= delay <= 3600), browse_rerun_doubles / "
+                   "resolve_rerun_doubles (next run `delay` s later carrying min(2*delay, 3600)), schedule_arith_safe (Delay.step "
+                   "= ok: no u32 overflow, gap <= 3 600 000 ms), due_time_bounded (no u64 overflow below 2^63), and the chain: "
+                   "browse_schedule_starts, browse_schedule_step, browse_schedule_chain (from query number k sent at t, after ANY "
+                   "history without browse/stop of the type the schedule is at number k+n sent at t' >= t + 1000 * (delay k + ... "
+                   "+ delay (k+n-1))).",
         level_note="Trusted: Lean kernel; axioms propext/Classical.choice/Quot.sound; hand model tied to the code by differential "
                    "comparison of whole histories; simulation seams bypass poll/recv/send/if_addrs/fastrand/system time; "
                    "histories here have no responders (empty cache) - queries caused by cache refresh, follow-ups, new "
                    "interfaces and verify are covered by other properties' checks.",
-        partial=["the chain theorem over whole traces (k-th gap >= k-th delay) is stated as step contracts "
-                 "(browse_starts_schedule, rerun_backs_off, not_due_not_sent) plus the invariant one_schedule, not yet as "
-                 "one theorem over runAll"],
+        partial=["the chain theorem over whole histories (browse_schedule_chain) is proved for browses; for hostname searches "
+                 "(where the deadline can cut the schedule) the step contracts resolve_rerun_doubles / C17.resolve_first_rerun / "
+                 "resolve_rerun_open plus one_schedule_client"],
         assumptions=["event receivers stay alive (a dropped receiver ends the search early: not generated here)",
                      "one `now` per loop iteration"],
 )
@@ -782,16 +790,14 @@ CONFIG = {
                    "records, the querier's known_iff and the written-TTL bounds (no underflow under the half-life guard) are Lean "
                    "theorems for all records and caches; the model is compared with suppressed_by_answer / suppressed_by / "
                    "get_known_answers / update_ttl of the working tree on every run and the property's clauses are evaluated on "
-                   "the real answers. The full responder statement is false of the code (witness theorem D18_witness) and is kept "
-                   "as C10_responder_full with suppress_partial proved. Daemon level (responder side): `sim C10` histories are inside the "
+                   "the real answers. The full responder statement C10_responder_full is proved (responder_full) since the repair of "
+                   "D18 (it was refuted by a witness before). Daemon level (responder side): `sim C10` histories are inside the "
                    "responder model (handle_query with its fold over the known answers: exact correspondence) and the suppression "
                    "clause is evaluated on the real packets; the querier side (known answers listed in queries, per interface) is "
                    "covered by the client model's correspondence under C03-C05.",
         level_note="Trusted: Lean kernel; axioms propext, Classical.choice, Quot.sound only; hand-written model tied to the code by "
-                   "differential testing of this run's inputs. Partial: suppress_partial needs equal cache-flush bits and "
-                   "(addresses) equal interface - defect D18; handle_query / send_query_vec are not modelled here.",
-        partial=["suppress_partial: hypothesis mine.flush = other.flush and same interface for addresses (defect D18: "
-                 "suppressed_by_answer uses `matches`, which compares the cache-flush bit and the interface)"],
+                   "differential testing of this run's inputs.",
+        partial=["querier side: a record whose end was brought forward (flush, set_expire_sooner) is still listed from created+ttl (candidate C10-F1)"],
         assumptions=[
             "daemon level judged only in iterations that read exactly one datagram and made no API call",
             "times below 2^62 ms (no u64 wrap); TTLs are u32",
@@ -897,7 +903,7 @@ CONFIG = {
 
 CONFIG["C13"] = dict(
     modules=["Mdns.Props.C13"],
-    model_files="Mdns/Model/Sched.lean",
+    model_files="Mdns/Model/Sched.lean, Mdns/Model/Client.lean",
     nontrivial=_sim_nontrivial,
     extra_evidence=_sim_extra,
     rule="histories on real daemon threads under the simulation seams, from VERIF_SEED (harness/src/c13.rs, scen.rs): one "
@@ -913,19 +919,33 @@ CONFIG["C13"] = dict(
                "cache-only browses are silent, SearchStarted first - Lean theorems. The monitor ok_C13 evaluates the channel "
                "protocol (first event, Found before Resolved, SearchStopped once and last, at stop / time-out / shutdown), "
                "absence of queries after a stop and the cache-only clause on every real history, including those with "
-               "responders that the model does not cover.",
+               "responders that the model does not cover. On the CLIENT model (Client.iter, compared with the real daemon per iteration; any times, packets, commands): "
+               "every_output_has_a_cause (Client.Origin: each event goes to the channel of a browse / hostname search / queued re-run "
+               "of the state or of a command; each query shape has its cause); silent_for_ever (a channel nobody uses - ChanFree - "
+               "gets no event in ANY later history until a command gives it to a new search); first_event_started_browse / _resolve; "
+               "browse_owns_channel / resolve_owns_channel, onlyBrowse_iter / onlyHost_iter (a search started on a free channel is "
+               "its only user); stop_browse_final / stop_resolve_final (the stop emits exactly SearchStopped, nothing on the channel "
+               "in the rest of that iteration, channel free afterwards: SearchStopped last and once; host name in any letter case); "
+               "no_ptr_query_after_stop + stop_browse_gone (no PTR question for the type in any later history until browsed again); "
+               "no_host_query_after_stop (no A+AAAA / single A or AAAA question for the name, for a daemon without browse work); "
+               "delays_ok_run. Whole-history capstones from the fresh daemon: browse_channel_lifecycle, resolve_channel_lifecycle "
+               "(nothing on the channel before the call, SearchStarted first, SearchStopped at the stop and nothing after, nothing "
+               "ever after), timeout_channel_lifecycle + timeout_ends_for_good + stale_silent_for_ever (SearchTimeout then "
+               "SearchStopped at the first iteration at/after the deadline, nothing after; the retransmission left queued is inert "
+               "and is purged by a new search of the name).",
     level_note="Trusted: Lean kernel; allowed axioms only; hand model tied to the code by differential comparison of whole "
                "histories; simulation seams. Histories with responders are decided by the monitor only (no model prediction); "
                "'forgets the records it cached' is checked through a later browse of the same type in the same history, not "
                "through metrics.",
-    partial=["the no-query theorem is proved for browsed types; for host names only the stop/time-out step contracts are proved",
-             "Found-before-Resolved and shutdown clauses are monitor-only (the cache/resolve part of the daemon is not in the scheduler model)"],
+    partial=["Found-before-Resolved and the shutdown clause are monitor-only",
+             "no_host_query_after_stop assumes a daemon without browse work (A/AAAA questions for the host of a browsed service are "
+             "legitimate and have the same shape)"],
     assumptions=["event receivers stay alive", "address queries for a host are attributed to the stopped hostname search only when the daemon has no browse in the history"],
 )
 
 CONFIG["C12"] = dict(
     modules=["Mdns.Props.C12"],
-    model_files="Mdns/Model/Sched.lean",
+    model_files="Mdns/Model/Sched.lean, Mdns/Model/Client.lean",
     nontrivial=_sim_nontrivial,
     extra_evidence=_sim_extra,
     rule="(a) responder-free histories as in C19/C13: the model's requested wake-up is compared with the real daemon's at "
@@ -941,19 +961,27 @@ CONFIG["C12"] = dict(
                "model: every queued retransmission and resolver deadline has a timer no later than its due time, the "
                "requested wake-up is the minimum of the timers, passed timers are consumed, and the interface check never "
                "re-arms at `now` (interval 0 = disabled) - Lean theorems; the model's wake-up equals the real one on every "
-               "iteration of the responder-free histories.",
+               "iteration of the responder-free histories. On the CLIENT model (Client.iter, whose wake-up is compared with the real daemon's at every iteration of every "
+               "client history): the invariant TimersCover - for EVERY cached entry the expiry instant and the refresh mark (while "
+               "before the expiry) is a timer, every queued re-run (browse / resolve_hostname retransmission, follow-up resolve, "
+               "verify resend), every hostname-search deadline and the interface check has a timer - is preserved by iter for every "
+               "input (timersCover_iter), holds after every history from the fresh daemon (timersCover_always), hence "
+               "wake_never_late(_run): the requested wake-up is no later than any due work after the last iteration; "
+               "expiry_after_last, old_timers_popped; hfound_on_time (an iteration not later than the requested wake-up reports no "
+               "address whose record ran out before now).",
     level_note="Trusted: Lean kernel; allowed axioms only; simulation seams (the gate replaces the blocking poll, so the 1 ms "
                "floor of the real poll time-out is not exercised). The two-scheduler comparison is an oracle on the real "
                "code, not a theorem; probe steps, announcement repeats, refreshes, expiries and verify deadlines are covered "
                "by it, not yet by the model.",
-    partial=["wake_sound is proved for the scheduler fragment (retransmissions, resolver deadlines, interface check); probing, "
-             "record refresh/expiry and verify timers are checked by the two-scheduler oracle only"],
+    partial=["probing / announcement timers of the responder side are not in the client model (two-scheduler oracle and the "
+             "responder model's own theorems); a no-spin bound for the client model (refresh marks being caught up on a late "
+             "iteration) is not proved, the scheduler-fragment statements are"],
     assumptions=["one `now` per loop iteration", "hash-order dependent tie-breaks may make the two executions diverge; packet content is compared canonically (sorted, without TTLs)"],
 )
 
 CONFIG["C17"] = dict(
     modules=["Mdns.Props.C17"],
-    model_files="Mdns/Model/Sched.lean, Mdns/Model/Cache.lean",
+    model_files="Mdns/Model/Client.lean, Mdns/Model/Sched.lean, Mdns/Model/Cache.lean",
     nontrivial=_sim_nontrivial,
     extra_evidence=_sim_extra,
     rule="histories on real daemon threads under the simulation seams, from VERIF_SEED (harness/src/c17.rs, scen.rs): three "
@@ -961,24 +989,30 @@ CONFIG["C17"] = dict(
          "TTLs 1..4500 s, cache-flush updates, goodbyes, letter-case variants of the host name on the caller and responder "
          "side, time-outs 1.5 s..200 s, verify requests), one quarter with real responder daemons (register / unregister / "
          "shutdown). Non-trivial = at least one packet and one client event. Distinct = distinct scripts.",
-    level_text="The monitor ok_C17 decides on every real history: each AddressesFound lists only addresses with a delivered, "
-               "still usable A/AAAA record for that host name (letter case ignored), tagged with the interface they arrived on; "
-               "each AddressesRemoved lists only addresses of which some record has run out; SearchStarted first, SearchTimeout "
-               "then SearchStopped at the deadline, no query afterwards (shared with C13); the A+AAAA back-off is C19's. Lean "
-               "theorems on the scheduler model: keyed by the lower-cased name (stop and time-out independent of letter case), "
-               "A and AAAA at once, no retransmission beyond the deadline, time-out contract; on the cache model: look-ups by "
-               "lower-cased name. Responder-free histories are predicted exactly by the scheduler model.",
+    level_text="On the client model (Client.iter, compared with the real daemon per iteration): hfound_sound / hremoved_sound over "
+               "whole histories from the fresh daemon, in terms of delivered records (each listed address from a delivered A/AAAA "
+               "record of exactly that owner name, on the interface it arrived on, for a resolve_hostname call on that channel, "
+               "letter case ignored; lifetime not over at the previous iteration / record ran out in this very iteration); "
+               "hfound_lists_all, hremoved_exact (cache-level exactness); hfound_complete(_first) (a new or revived address of a "
+               "searched host in a packet taken in is reported in that handle_response); resolve_starts_client, "
+               "resolve_first_rerun, resolve_rerun_open/closed, timeout_contract_client, timeout_only_when_due (A+AAAA at once, "
+               "doubling, cut at the deadline, SearchTimeout then SearchStopped); refresh_while_open, refresh_timer_armed. "
+               "'Unexpired at the instant of the event' is refuted on a late iteration (hfound_unexpired_full_false, witness "
+               "lateHistory). The monitor ok_C17 decides the same clauses on every real history from the delivered records; the "
+               "older theorems on the scheduler fragment are kept.",
     level_note="Trusted: Lean kernel; allowed axioms only; simulation seams; the address-event clauses are decided by an oracle "
                "computed from the delivered records (record identity includes the cache-flush bit, as in the daemon), not by a "
                "model prediction; the exact expiry millisecond of an address in AddressesFound is left open (statement masks it).",
-    partial=["address events (found/removed) have no model-level theorem yet: the client-side daemon model is under construction",
-             "refresh of addresses at 80 % is covered at record level by C11 (resolution_refresh_once), not observed here as a clause"],
+    partial=["hfound_unexpired_full is false of the model: get_addresses_for_host does not look at expiry times, so on a late iteration "
+             "(handle_response runs before the eviction of the same iteration) an address whose record ran out is still listed; "
+             "what holds without a timeliness assumption is hfound_sound (not over at the previous iteration)",
+             "completeness is a step contract (per handle_response), not an invariant over histories"],
     assumptions=["event receivers stay alive", "histories with verify requests are not judged for AddressesRemoved (verify shortens lifetimes)"],
 )
 
 CONFIG["C20"] = dict(
     modules=["Mdns.Props.C20"],
-    model_files="Mdns/Model/Cache.lean, Mdns/Model/Sched.lean",
+    model_files="Mdns/Model/Client.lean, Mdns/Model/Cache.lean, Mdns/Model/Sched.lean",
     nontrivial=_sim_nontrivial,
     extra_evidence=_sim_extra,
     rule="client histories with a scripted responder (harness/src/c17.rs generate_c20): announcements, partial record sets "
@@ -986,17 +1020,21 @@ CONFIG["C20"] = dict(
          "started and stopped, get_metrics readings along the way and after tails of 20 s .. 5000 s (beyond every TTL and "
          "beyond the one-hour life of a cancelled retransmission timer). Non-trivial = at least one packet and one client "
          "event. Distinct = distinct scripts.",
-    level_text="`drained` (after every cached record has expired one eviction pass leaves all five cache tables empty, including "
-               "records no PTR points to - the repair of D19), `evict_only_removes`, `idle_arms_nothing` are Lean theorems on "
-               "the cache / scheduler models (the cache model is compared with the real DnsCache op by op in C11). The monitor "
-               "ok_C20 reads the daemon's own metrics on real histories: no cached record and at most the interface-check timer "
-               "once every TTL has passed and all searches ended; at every reading, no more cached records than the usable "
-               "delivered records some search of the history needs.",
+    level_text="On the client model (Client.iter, compared with the real daemon per iteration incl. the metrics), whole histories "
+               "from the fresh daemon: cache_bounded (every cached entry is the copy of a delivered record whose lifetime was not "
+               "over at the last iteration, filed under its own name), drained_cache (once the lifetime of every delivered record "
+               "is over an iteration leaves all five tables empty, counters 0 - searches open or not), timers_bounded (every "
+               "pending timer is the interface check or lies within the horizon of the history: last iteration + 1 h, end of a "
+               "delivered lifetime, a deadline given with resolve_hostname / verify), drained_run (nothing browsed, nothing "
+               "queued, then any input-free iterations: the first iteration at or after the horizon leaves an empty cache and no "
+               "timer but the interface check), quiet_iter. On the cache model: drained, evict_only_removes; scheduler fragment: "
+               "idle_arms_nothing. The monitor ok_C20 reads the daemon's own metrics on real histories.",
     level_note="Trusted: Lean kernel; allowed axioms only; simulation seams; the daemon-level clauses are decided by the monitor "
                "on metrics, not by a model prediction. Keys left empty in the maps of records the cache declines are not visible "
                "in the metrics and not judged.",
-    partial=["`bounded` (size <= f(active searches)) is monitor-only; the acceptance rule for PTR-less packets makes it false of the "
-             "code (known finding D25)"],
+    partial=["`bounded` by what the active searches NEED is monitor-only; the acceptance rule for PTR-less packets makes it false of "
+             "the code (known finding D25); cache_bounded bounds the cache by what was DELIVERED and is still live",
+             "the `subtype` map is never pruned (not a table of records; not covered by drained_* / cache_size_bounded)"],
     assumptions=["metrics are the observable (as the statement says)"],
 )
 
@@ -1352,7 +1390,9 @@ CONFIG["C04"] = dict(
                "ANY inst without SRV entry, A+AAAA of the SRV target without address entry, nothing otherwise - and queues try "
                "k+1 500 ms ahead iff k < 3), resolved_when_complete / resolvedComplete_partial (an update touching an instance "
                "whose PTR, SRV and address are usable emits ServiceResolved on the browse channel in that very step), touched_by "
-               "(which records count as an update). The completeness invariant over histories is stated "
+               "(which records count as an update), followup_runs_when_due (a queued Resolve(inst,k) that is due is run in the iteration, "
+               "on the cache of the re-run phase: missing question out, try k+1 queued 500 ms ahead while k < 3), "
+               "followups_at_500_1000_1500 (PTR only: ANY inst at n, n+500, n+1000). The completeness invariant over histories is stated "
                "(ResolvedComplete_full) and REFUTED on a concrete history (resolvedComplete_full_false: an address first seen as "
                "a goodbye and re-announced within the second only refreshes the cached entry, nothing re-resolves the "
                "instance) - the same history reproduces on the real daemon (corpus-candidates/C04). The model is compared "
@@ -1362,7 +1402,8 @@ CONFIG["C04"] = dict(
     level_note=_CLIENT_NOTE,
     partial=["ResolvedComplete is proved as a step contract only; as an invariant it is false of model and code (re-delivered, "
              "not new, records are not updates): resolvedComplete_full_false",
-             "the +500/+1000/+1500 schedule is a step contract plus a `decide` example; the timely-scheduler composition is C12's"],
+             "the +500/+1000/+1500 schedule is composed in Lean for iterations that run at the due instants "
+             "(followup_runs_when_due, followups_at_500_1000_1500); that such iterations exist is C12's wake_never_late_run"],
     assumptions=_CLIENT_ASSUME,
 )
 
@@ -1379,12 +1420,14 @@ CONFIG["C05"] = dict(
                "of its host), not_evicted_while_live / not_unresolved_while_live (the contrapositives: never while PTR, SRV and "
                "address are live), goodbye_expiry (a goodbye sets the cached copy's expiry to exactly t+1000), removed_on_time "
                "(the eviction step of an iteration at now >= expiry sends ServiceRemoved on the browse channel) and "
-               "not_removed_before, verify_deadline. The model is compared exactly with the real daemon on every generated "
+               "not_removed_before, verify_deadline; removed_quiet_full is refuted (removed_quiet_full_false). The model is compared exactly with the real daemon on every generated "
                "history (goodbyes of all or part of the set, duplicated, re-announced within the second, silent expiry, verify "
                "1..10000 ms); the monitor ok_C05 derives due times from the delivered TTLs on the real trace.",
     level_note=_CLIENT_NOTE,
-    partial=["removed_quiet (no ServiceResolved after ServiceRemoved without new records) is not proved: with several SRV records "
-             "of one instance the first usable SRV can change by expiry alone",
+    partial=["removed_quiet_full (no ServiceResolved after ServiceRemoved without new records) is FALSE of model and code: "
+             "removed_quiet_full_false, witness twoSrvAnnounce (two shared SRV records of one instance: resolve_service_from_cache "
+             "looks at the first usable SRV only - ServiceRemoved while the second SRV and its address are live, and ServiceResolved "
+             "later without any new record); reproduced on the real daemon (corpus-candidates/C05); removed_quiet_partial is what holds",
              "timeliness is a step contract (the iteration at the expiry instant exists by C12's wake-up theorems, composed in "
              "the monitor, not in Lean)"],
     assumptions=_CLIENT_ASSUME,
